@@ -1642,3 +1642,7 @@ cdef class NNPS(NNPSBase):
         for name, arr in pa.properties.items():
             stride = pa.stride.get(name, 1)
             arr.c_align_array(indices, stride)
+
+        # The spatial order ignores the tags: move the real particles back
+        # ahead of the ghost/remote ones.
+        pa.align_particles()
